@@ -6,6 +6,9 @@ from harness.checks import common
 from harness.drivers import xfer
 
 
+LEVEL = 'exploration'
+
+
 def run(chk):
     q = chk.quick
     chk.rule = (
